@@ -19,7 +19,7 @@ Lemma array_step : forall args0 tk tv f s scr a, size_ok a -> length scr = 9%nat
     match accept FArray s a with Some s' => RNormal (env_array s' scr') | None => RPanic end.
 Proof. intros args0 tk tv f s scr a Ha L. explode scr 9. step_tac scr a Ha 9 9%nat. Qed.
 
-Local Opaque ranker rk_default set_add_all set_add convert_all convert_pairs array_fill zero_of.
+Local Opaque ranker rk_default set_add_all set_add convert_all convert_pairs array_fill zero_of parsed_items.
 
 (* one statement, without unfolding the size arithmetic (the size of the parsed collection is symbolic) *)
 Ltac xstep_b :=
@@ -48,8 +48,10 @@ Proof.
     (destruct vals as [[|?v ?l]|]; [ | leaf_arr | ];
      (destruct sq as [?l|]; [leaf_arr|];
       (destruct txt as [|?ch ?t]; [leaf_arr|];
-       (destruct prs as [?pv|]; [|leaf_arr]; seq_cases_arr pv))))).
-  all: cbn [plus]; do 3 (timeout 20 xstep); timeout 60 to_loop_b.
+       (destruct prs as [?pv|]; [|leaf_arr]))))).
+  all: cbn [plus]; do 3 (timeout 20 xstep); timeout 60 to_loop_b; timeout 30 rhs_open_keep.
+  all: destruct (parsed_items (PColl pv)) as [items|]; [|timeout 60 fin2].
+  all: timeout 60 to_loop_b.
   all: timeout 30 (match goal with |- context [fold_loop ?st ?its ?env] => erewrite (array_loop _ _ _ _ _ _ _ st its (fun x e => eq_refl)); [ | cbn; congruence | cbn; congruence | cbn; congruence | cbn; lia | cbn; lia | cbn; lia | reflexivity | reflexivity ] end).
   all: timeout 20 rhs_open.
   all: match goal with |- context [array_fill ?a ?b ?c ?d] => destruct (array_fill a b c d) end.
